@@ -76,7 +76,9 @@ func MakeFormat(s fmt.State, verb rune) (justV bool, format string) {
 	if z {
 		f.WriteByte('0')
 	}
-	if wp {
+	if wp && w != 0 {
+		// A width of 0 is left out: "0" in this position would be read
+		// back as the zero-padding flag, and it pads nothing anyway.
 		f.WriteString(strconv.Itoa(w))
 	}
 	if pp {
